@@ -3332,9 +3332,20 @@ XPath::stepPattern(
                                     argLen,
                                     stepType);
 
+                // A step on the child axis never matches the root node,
+                // which is not the child of any node.  The initial '//' of
+                // a pattern (descendant-or-self::node() from the root) does.
+                const bool  fRootAllowed =
+                    stepType == XPathExpression::eMATCH_ANY_ANCESTOR_WITH_PREDICATE;
+
                 for(;;)
                 {
-                    score = theTester(*context, nodeType);
+                    score =
+                        fRootAllowed == false &&
+                        (nodeType == XalanNode::DOCUMENT_NODE ||
+                         nodeType == XalanNode::DOCUMENT_FRAGMENT_NODE) ?
+                            eMatchScoreNone :
+                            theTester(*context, nodeType);
 
                     if (eMatchScoreNone != score)
                     {
@@ -3372,7 +3383,11 @@ XPath::stepPattern(
 
             const XalanNode::NodeType   nodeType = context->getNodeType();
 
-            if(nodeType != XalanNode::ATTRIBUTE_NODE)
+            // A step on the child axis matches neither an attribute nor
+            // the root node, which is not the child of any node...
+            if(nodeType != XalanNode::ATTRIBUTE_NODE &&
+               nodeType != XalanNode::DOCUMENT_NODE &&
+               nodeType != XalanNode::DOCUMENT_FRAGMENT_NODE)
             {
                 opPos += 3;
 
